@@ -204,7 +204,30 @@ def apply_effect(fd, e, args, workdir, tag):
                 d[:, [0, 1]] = d[:, [1, 0]]
             elif kind == 'swap_first':
                 d[0, [0, 1]] = d[0, [1, 0]]
+            elif kind in ('same_array', 'same_array_rows'):
+                # the edit idiom: take the array the mesh holds, change it, assign it back
+                d = fd.elements.data
+                if kind == 'same_array_rows' and len(d) > 1:
+                    d[[0, -1]] = d[[-1, 0]]
+                else:
+                    d[0, [0, 1]] = d[0, [1, 0]]
             fd.elements.data = d
+        elif e == 'assign_nodes':
+            kind = args.get('kind', 'new')
+            if kind == 'new':
+                fd.nodes.data = np.array(fd.nodes.data) * 2. + 1.
+            elif kind == 'same_array':
+                d = fd.nodes.data
+                d[:, 0] = d[:, 0] * 2. + 1.
+                fd.nodes.data = d
+            else:                           # in place, nothing assigned
+                fd.nodes.data[:, 0] = fd.nodes.data[:, 0] * 2. + 1.
+        elif e == 'edit_user_variable':
+            a = fd.nodal_data['u']
+            if args.get('kind') == 'assign':
+                a.data = np.array(a.data) + 1.
+            else:
+                a.data[0] = a.data[0] + 1.
         elif e.startswith('write_'):
             fmt = e[len('write_'):]
             p = Path(workdir) / f'{tag}' / 'out'
